@@ -17,6 +17,7 @@ RULE = ('complete enumeration of: every body length 0..70000 (+ boundaries to 2^
         'boundaries and a stride sweep of 0..2^32-1 through key/signature/literal/expiry fields; all 256 S2K counts; '
         'parse-then-grow/shrink across each width boundary. A value is non-trivial when it lies within 2 of a width '
         'boundary, or is any growth/partial/MPI/timestamp case; distinct by (sub-domain, value, form).')
+RULE += " MPIs are also decoded from zero-padded encodings (declared bit count 1..31 above the value's) and their re-encoding must decode back to the value and be consumed exactly."
 ASSUMPTIONS = ['refpgp.wire implements RFC 4880 4.2 / 5.2.3.1 / 3.2 / 3.7.1.3 arithmetic correctly (self-tested against '
                'the RFC examples)', 'bodies above 70000 octets are exercised at header level only (no multi-gigabyte bodies)']
 
